@@ -46,9 +46,11 @@ func (d *defaultPacketLogger) LogRTPPacket(header *rtp.Header, payload []byte, a
 	select {
 	case d.rtpChan <- &rtpDump{
 		attributes: attributes,
+		// The dump is written by the logger goroutine after this call has returned, when the
+		// caller may already have reused its header and buffers: hand over copies.
 		packet: &rtp.Packet{
-			Header:  *header,
-			Payload: payload,
+			Header:  header.Clone(),
+			Payload: append([]byte(nil), payload...),
 		},
 	}:
 	case <-d.close:
